@@ -145,6 +145,17 @@ func (t *TBSCertificate) SignWith(signer Certificate, curve Curve, sp SignerLamb
 		return nil, fmt.Errorf("invalid certificate")
 	}
 
+	if t.Version == Version2 {
+		// unmarshalCertificateV2 refuses anything longer than MaxCertificateSize, do not issue what can not be read back
+		b, err := sc.Marshal()
+		if err != nil {
+			return nil, err
+		}
+		if len(b) > MaxCertificateSize {
+			return nil, NewErrInvalidCertificateProperties("encoded certificate is %d bytes long, the maximum is %d", len(b), MaxCertificateSize)
+		}
+	}
+
 	return sc, nil
 }
 
